@@ -67,6 +67,29 @@ CHECKS["C05"] = dict(
          "backend's ladder is the LSB-first double-and-add over all limbs x 64 bits with no early exit (premises of the textbook induction); cofactor 1, r prime, generator of exact order r.",
     note=OTHER_NOTE + " Module laws follow from G_SMUL being the k-fold sum (assumed); arkworks mul_bigint trusted.", design="DESIGN.md §4 C05")
 
+CHECKS["C06"] = dict(
+    technique="static: provenance typestate over every compiler-resolved construction site of Element/AffinePoint (PROV), validity of the published constants (CONST)",
+    category="other",
+    text="The representation fields are not public, so values of these types arise only at construction sites inside the crate. All 32 sites (28 arkworks build, 4 minimal build) "
+         "are found from the resolved HIR and the wrapped curve point's term must have provenance in the closed set VALID (decode / Elligator output, validated constant, group "
+         "operations, representation changes, selections and element-wise maps over VALID). Raw curve-point constructors fed with outside data are named as violations.",
+    note=OTHER_NOTE + " Assumes decode/Elligator outputs are valid (Decaf theorems; their conformance is C01/C07) and that arkworks group operations stay in the group.",
+    design="DESIGN.md §4 C06")
+CHECKS["C08"] = dict(
+    technique="static: canonical polynomial form of the PartialEq condition (TERM), observation-class shield dataflow over the Hash impls' hasher writes (OBS), identity-predicate normal form and identity-value denotation (IDENT)",
+    category="other",
+    text="Equality is X1*Y2 - Y1*X2 = 0 on the operands' own coordinates and nothing else; Hash may observe self only through bytes(encode(self)); every identity predicate "
+         "normalises to X == 0 and every identity value denotes the neutral element - for all representatives at once.",
+    note=OTHER_NOTE + " 'equal iff same encoding' beyond conformance of eq and encode is Decaf section 4.5 (assumed).", design="DESIGN.md §4 C08")
+CHECKS["C10"] = dict(
+    technique="static: forwarding rule over all 174 operator/iterator impls and 57 arithmetic methods of the field layer down to the backend primitive (FWD), fold identity by evaluated value (IDENT), exponent-coverage loop template (EXP), Montgomery/canonical typestate at raw-limb constructors (DOM), limb-wise selection shape (SELECT), inverse zero-guard and divstep driver facts (INV)",
+    category="other",
+    text="Decides the hand-written wrapper and forwarding layer of all three fields in both backends: each impl denotes the right ring operation on its own operands in its own order, "
+         "Sum/Product fold from 0/1, power/pow_le_limbs consume the whole exponent with a correct square-and-multiply template, raw limbs reach constructors only in the domain they expect, "
+         "selection is limb-wise ITE over all limbs, inverse(0) is None and the Bernstein-Yang driver uses this field's fiat functions and iteration count.",
+    note=OTHER_NOTE + " The arithmetic primitives themselves (arkworks Fp<MontBackend>, the Coq-proved fiat-crypto bodies) are trusted and NOT analysed; mutations inside fiat.rs are out of reach.",
+    design="DESIGN.md §4 C10")
+
 NOT_APPLICABLE = {}
 
 PENDING = {}  # property -> reason, for properties whose check is not built yet
